@@ -986,15 +986,34 @@ func (s *Searcher) fetchGroupByResults(searchResults *segresults.SearchResults, 
 	return nodeResult, nil
 }
 
+// Orders records that have the same timestamp by where they are stored, so the
+// order of a result does not depend on which block search finished first; paging
+// through a result with from/size relies on every page query seeing one order.
+func rrcPositionLess(a, b *sutils.RecordResultContainer) bool {
+	if a.SegKeyInfo.SegKeyEnc != b.SegKeyInfo.SegKeyEnc {
+		return a.SegKeyInfo.SegKeyEnc < b.SegKeyInfo.SegKeyEnc
+	}
+	if a.BlockNum != b.BlockNum {
+		return a.BlockNum < b.BlockNum
+	}
+	return a.RecordNum < b.RecordNum
+}
+
 func getSortingFunc(sortMode sortMode) (func(a, b *sutils.RecordResultContainer) bool, error) {
 	switch sortMode {
 	case recentFirst:
 		return func(a, b *sutils.RecordResultContainer) bool {
-			return a.TimeStamp > b.TimeStamp
+			if a.TimeStamp != b.TimeStamp {
+				return a.TimeStamp > b.TimeStamp
+			}
+			return rrcPositionLess(a, b)
 		}, nil
 	case recentLast:
 		return func(a, b *sutils.RecordResultContainer) bool {
-			return a.TimeStamp < b.TimeStamp
+			if a.TimeStamp != b.TimeStamp {
+				return a.TimeStamp < b.TimeStamp
+			}
+			return rrcPositionLess(a, b)
 		}, nil
 	case anyOrder:
 		return func(a, b *sutils.RecordResultContainer) bool {
@@ -1019,11 +1038,17 @@ func (s *Searcher) initializeQSRs() error {
 		return nil
 	case recentFirst:
 		sort.Slice(qsrs, func(i, j int) bool {
-			return qsrs[i].GetEndEpochMs() > qsrs[j].GetEndEpochMs()
+			if qsrs[i].GetEndEpochMs() != qsrs[j].GetEndEpochMs() {
+				return qsrs[i].GetEndEpochMs() > qsrs[j].GetEndEpochMs()
+			}
+			return qsrs[i].GetSegKey() < qsrs[j].GetSegKey()
 		})
 	case recentLast:
 		sort.Slice(qsrs, func(i, j int) bool {
-			return qsrs[i].GetStartEpochMs() < qsrs[j].GetStartEpochMs()
+			if qsrs[i].GetStartEpochMs() != qsrs[j].GetStartEpochMs() {
+				return qsrs[i].GetStartEpochMs() < qsrs[j].GetStartEpochMs()
+			}
+			return qsrs[i].GetSegKey() < qsrs[j].GetSegKey()
 		})
 	default:
 		return fmt.Errorf("initializeQSRs: invalid sort mode: %v", s.sortMode)
@@ -1410,11 +1435,17 @@ func sortRRCs(rrcs []*sutils.RecordResultContainer, mode sortMode) error {
 	switch mode {
 	case recentFirst:
 		sort.Slice(rrcs, func(i, j int) bool {
-			return rrcs[i].TimeStamp > rrcs[j].TimeStamp
+			if rrcs[i].TimeStamp != rrcs[j].TimeStamp {
+				return rrcs[i].TimeStamp > rrcs[j].TimeStamp
+			}
+			return rrcPositionLess(rrcs[i], rrcs[j])
 		})
 	case recentLast:
 		sort.Slice(rrcs, func(i, j int) bool {
-			return rrcs[i].TimeStamp < rrcs[j].TimeStamp
+			if rrcs[i].TimeStamp != rrcs[j].TimeStamp {
+				return rrcs[i].TimeStamp < rrcs[j].TimeStamp
+			}
+			return rrcPositionLess(rrcs[i], rrcs[j])
 		})
 	case anyOrder:
 		// Do nothing.
